@@ -30,11 +30,11 @@ PROP = dict(
         "clock: ghost non-decreasing instants (deadline check of the pending request is real code)",
     ],
     harnesses=[
-        H(NH, "c07", "c07_v4_plain", "handle_incoming, NTPv4, no authenticator: hdr+uid+cookie field in clear (28). Nothing is accepted, no state change at all (incl. NTS-NAK and other kiss codes)", timeout=300),
-        H(NH, "c07", "c07_v5_plain_authnak", "handle_incoming, NTPv5 with the authnak flag, no authenticator: hdr+draft+uid+reference-id response(16); outside the known-defect region: no effect", timeout=300),
-        H(NH, "c07", "c07_v5_plain_sync", "handle_incoming, NTPv5 without authnak flag, no authenticator: nothing accepted, no state change", timeout=300),
+        H(NH, "c07", "c07_v4_plain", "handle_incoming, NTPv4, no authenticator: hdr+uid+cookie field in clear (28). Nothing is accepted, no state change at all (incl. NTS-NAK and other kiss codes)", timeout=600),
+        H(NH, "c07", "c07_v5_plain_authnak", "handle_incoming, NTPv5 with the authnak flag, no authenticator: hdr+draft+uid+reference-id response(16); outside the known-defect region: no effect", timeout=600),
+        H(NH, "c07", "c07_v5_plain_sync", "handle_incoming, NTPv5 without authnak flag, no authenticator: nothing accepted, no state change", timeout=600),
         H(NH, "c07", "c07_v5_plain_kf_authnak_kiss", "KNOWN DEFECT region: unauthenticated NTPv5 datagram (hdr+draft+uid) with stratum 0 + authnak flag + poll 127 / > own interval and the (clear-text) "
           "unique id and client cookie of the request: valid_server_response lets it pass (NTS-NAK exception), then the RATE/DENY branches run before the NTS-NAK branch: "
-          "poll rate raised or source demobilised without authentication", timeout=300),
+          "poll rate raised or source demobilised without authentication", timeout=600),
     ],
 )
